@@ -271,7 +271,7 @@ def grid_code_to_spec(ctx, hyruns, ncases):
                 m.save(fpath, overwrite=True)
             else:
                 m.save(fpath)
-            m3 = hyruns.OptionManager.from_file(fpath)
+            m3 = hyruns.OptionManager.from_file(fpath, wait_secs=0)
             rec = {"opts": opts, "ntasks": m.ntasks, "tasks": observe(m)["tasks"], "finds": finds,
                    "eq12": bool(m == m2) and m2.context == m.context, "eq21": bool(m2 == m),
                    "tasks2": observe(m2)["tasks"], "renamed": bool(rename),
